@@ -17,6 +17,7 @@ import (
 	"fmt"
 	"go/ast"
 	"go/parser"
+	"go/printer"
 	"go/token"
 	"os"
 	"path/filepath"
@@ -66,13 +67,16 @@ func typeStr(e ast.Expr) string {
 	case *ast.Ident:
 		return x.Name
 	case *ast.StarExpr:
+		if _, ok := x.X.(*ast.ArrayType); ok {
+			return "bytes"
+		}
 		return "*" + typeStr(x.X)
 	case *ast.SelectorExpr:
 		if id, ok := x.X.(*ast.Ident); ok && id.Name == "field" && x.Sel.Name == "Element" {
 			return "Element"
 		}
 	case *ast.ArrayType:
-		return "array"
+		return "bytes"
 	case *ast.Ellipsis:
 		return "..." + typeStr(x.Elt)
 	}
@@ -329,6 +333,20 @@ func (t *tr) intExpr(e ast.Expr) string {
 			return fmt.Sprintf("(U64.and %s %s)", t.intExpr(x.X), t.intExpr(x.Y))
 		}
 	case *ast.CallExpr:
+		if nodeName(x.Fun) == "int" && len(x.Args) == 1 {
+			// int(x[31]>>7)
+			if sh, ok := x.Args[0].(*ast.BinaryExpr); ok && sh.Op == token.SHR {
+				ix, ok1 := sh.X.(*ast.IndexExpr)
+				k, ok2 := sh.Y.(*ast.BasicLit)
+				if ok1 && ok2 {
+					il, ok3 := ix.Index.(*ast.BasicLit)
+					if ok3 && t.types[nodeName(ix.X)] == "bytes" {
+						return fmt.Sprintf("(U64.shr (%s.getD %s 0) %s)", nodeName(ix.X), il.Value, k.Value)
+					}
+				}
+			}
+			die("%s: unsupported conversion", pos(e))
+		}
 		p, kind := t.call(x)
 		if kind == "nat" {
 			return p.ro
@@ -370,6 +388,25 @@ func (t *tr) stmt(s ast.Stmt) {
 		}
 		t.call(c)
 	case *ast.AssignStmt:
+		if len(x.Lhs) == 2 && len(x.Rhs) == 1 && x.Tok == token.DEFINE {
+			c, ok := x.Rhs[0].(*ast.CallExpr)
+			if !ok || nodeName(c.Fun) != "SqrtRatio" || len(c.Args) != 2 {
+				die("%s: unsupported two-value assignment", pos(s))
+			}
+			recv := t.place(c.Fun.(*ast.SelectorExpr).X)
+			u, v := t.place(c.Args[0]), t.place(c.Args[1])
+			if recv.v == u.v || recv.v == v.v || u.v == v.v {
+				die("%s: SqrtRatio needs distinct operands", pos(s))
+			}
+			t.tmp++
+			r := fmt.Sprintf("r_%d", t.tmp)
+			t.emit("let %s := SqrtRatio %s %s %s", r, recv.lean(), u.lean(), v.lean())
+			t.types[nodeName(x.Lhs[0])] = "Element"
+			t.types[nodeName(x.Lhs[1])] = "int"
+			t.emit("let %s := %s.1", nodeName(x.Lhs[0]), r)
+			t.emit("let %s := %s.2", nodeName(x.Lhs[1]), r)
+			return
+		}
 		if len(x.Lhs) != 1 || len(x.Rhs) != 1 {
 			die("%s: unsupported assignment", pos(s))
 		}
@@ -385,8 +422,65 @@ func (t *tr) stmt(s ast.Stmt) {
 			t.assign(dst, sp.lean())
 			return
 		}
+		// out[31] |= byte(x.IsNegative() << 7)
+		if ix, ok := x.Lhs[0].(*ast.IndexExpr); ok && x.Tok == token.OR_ASSIGN {
+			arr := nodeName(ix.X)
+			il, ok := ix.Index.(*ast.BasicLit)
+			if !ok || t.types[arr] != "bytes" {
+				die("%s: unsupported array store", pos(s))
+			}
+			c, ok := x.Rhs[0].(*ast.CallExpr)
+			if !ok || nodeName(c.Fun) != "byte" {
+				die("%s: unsupported array store", pos(s))
+			}
+			sh, ok := c.Args[0].(*ast.BinaryExpr)
+			if !ok || sh.Op != token.SHL {
+				die("%s: unsupported array store", pos(s))
+			}
+			k, ok := sh.Y.(*ast.BasicLit)
+			if !ok {
+				die("%s: unsupported array store", pos(s))
+			}
+			t.emit("let %s := U64.orAt %s %s (U64.toByte (U64.shl %s %s))", arr, arr, il.Value, t.intExpr(sh.X), k.Value)
+			return
+		}
 		id, ok := x.Lhs[0].(*ast.Ident)
-		if !ok || x.Tok != token.DEFINE {
+		if !ok {
+			die("%s: unsupported assignment", pos(s))
+		}
+		if c, ok := x.Rhs[0].(*ast.CallExpr); ok {
+			// out := copyFieldElement(buf, &y): the 32 bytes of y (the helper's body is checked in main)
+			if nodeName(c.Fun) == "copyFieldElement" && x.Tok == token.DEFINE {
+				p := t.place(c.Args[1])
+				t.noteRead(p)
+				t.types[id.Name] = "bytes"
+				t.emit("let %s := FeLimbs.Bytes %s", id.Name, p.lean())
+				return
+			}
+			// y := new(field.Element).SetBytes(x): the field decoder fails only on a length other than 32, which the guard
+			// above has excluded (Proofs/EdPoints shows the other branch is never taken)
+			if sel, ok := c.Fun.(*ast.SelectorExpr); ok && sel.Sel.Name == "SetBytes" && x.Tok == token.DEFINE {
+				if t.types[nodeName(c.Args[0])] != "bytes" {
+					die("%s: SetBytes of something that is not a byte slice", pos(s))
+				}
+				recv := t.place(sel.X)
+				t.types[id.Name] = "Element"
+				t.emit("let %s := resGet (SetBytes %s %s)", id.Name, recv.lean(), nodeName(c.Args[0]))
+				return
+			}
+		}
+		if x.Tok == token.ASSIGN {
+			// vv = vv.Add(vv, feOne): the pointer is assigned what it already points to
+			p := t.place(x.Rhs[0])
+			if p.v != id.Name && !(t.types[id.Name] == p.typ) {
+				die("%s: unsupported pointer assignment", pos(s))
+			}
+			if p.v != id.Name {
+				t.emit("let %s := %s", id.Name, p.lean())
+			}
+			return
+		}
+		if x.Tok != token.DEFINE {
 			die("%s: unsupported assignment", pos(s))
 		}
 		// x := new(T).M(…): a pointer to a fresh value; the name then stands for that value
@@ -396,7 +490,51 @@ func (t *tr) stmt(s ast.Stmt) {
 		}
 		t.types[id.Name] = p.typ
 		t.emit("let %s := %s", id.Name, p.v)
+	case *ast.IfStmt:
+		// an early `return nil, err` under a test of the input length or of a flag; the receiver is unchanged on that path
+		if x.Init != nil || x.Else != nil || len(x.Body.List) != 1 || !strings.HasSuffix(t.f.result, "?") {
+			die("%s: unsupported if", pos(s))
+		}
+		rs, ok := x.Body.List[0].(*ast.ReturnStmt)
+		if !ok || len(rs.Results) != 2 || nodeName(rs.Results[0]) != "nil" {
+			die("%s: unsupported if body", pos(s))
+		}
+		be, ok := x.Cond.(*ast.BinaryExpr)
+		if !ok {
+			die("%s: unsupported condition", pos(s))
+		}
+		lit, ok := be.Y.(*ast.BasicLit)
+		if !ok {
+			die("%s: unsupported condition", pos(s))
+		}
+		var lhs string
+		if c, ok := be.X.(*ast.CallExpr); ok && nodeName(c.Fun) == "len" && t.types[nodeName(c.Args[0])] == "bytes" {
+			lhs = nodeName(c.Args[0]) + ".length"
+		} else if id, ok := be.X.(*ast.Ident); ok && t.types[id.Name] == "int" {
+			lhs = id.Name
+		} else {
+			die("%s: unsupported condition", pos(s))
+		}
+		op := map[token.Token]string{token.NEQ: "≠", token.EQL: "="}[be.Op]
+		if op == "" {
+			die("%s: unsupported comparison", pos(s))
+		}
+		t.emit("if %s %s %s then none else", lhs, op, lit.Value)
 	case *ast.ReturnStmt:
+		if strings.HasSuffix(t.f.result, "?") {
+			if len(x.Results) != 2 || nodeName(x.Results[1]) != "nil" || nodeName(x.Results[0]) != t.f.recv[0] {
+				die("%s: unsupported return", pos(s))
+			}
+			t.emit("some %s", t.f.recv[0])
+			return
+		}
+		if t.f.result == "bytes" {
+			if len(x.Results) != 1 || t.types[nodeName(x.Results[0])] != "bytes" {
+				die("%s: unsupported return", pos(s))
+			}
+			t.emit("%s", nodeName(x.Results[0]))
+			return
+		}
 		if len(x.Results) != 1 {
 			die("%s: unsupported return", pos(s))
 		}
@@ -418,12 +556,12 @@ var wanted = []string{
 	"projP2.Zero", "projCached.Zero", "affineCached.Zero", "Point.Set", "projP2.FromP1xP1", "projP2.FromP3", "Point.fromP1xP1",
 	"Point.fromP2", "projCached.FromP3", "affineCached.FromP3", "projP1xP1.Add", "projP1xP1.Sub", "projP1xP1.AddAffine",
 	"projP1xP1.SubAffine", "projP1xP1.Double", "Point.Add", "Point.Subtract", "Point.Negate", "Point.Equal", "projCached.Select",
-	"affineCached.Select", "projCached.CondNeg", "affineCached.CondNeg",
+	"affineCached.Select", "projCached.CondNeg", "affineCached.CondNeg", "Point.bytes", "Point.SetBytes",
 }
 
 // functions of the file that are not translated (byte encodings, constructors built on them, the panic helper)
 var skipped = map[string]bool{"checkInitialized": true, "NewIdentityPoint": true, "NewGeneratorPoint": true, "Point.Bytes": true,
-	"Point.bytes": true, "Point.SetBytes": true, "copyFieldElement": true}
+	"copyFieldElement": true}
 
 func main() {
 	if len(os.Args) != 2 {
@@ -514,6 +652,16 @@ func main() {
 				key = strings.TrimPrefix(f.recv[1], "*") + "." + key
 			}
 			f.key, f.lean = key, strings.ReplaceAll(key, ".", "_")
+			if key == "copyFieldElement" {
+				// translated at its call site as `Bytes y`: the body must be exactly copy(buf[:], v.Bytes()); return buf[:]
+				var b strings.Builder
+				for _, st := range x.Body.List {
+					b.WriteString(stmtText(st) + ";")
+				}
+				if b.String() != "copy(buf[:],v.Bytes());return buf[:];" {
+					die("%s: copyFieldElement is no longer `copy(buf[:], v.Bytes()); return buf[:]` (%s)", pos(x), b.String())
+				}
+			}
 			if skipped[key] {
 				continue
 			}
@@ -523,10 +671,15 @@ func main() {
 				}
 			}
 			if x.Type.Results != nil {
-				if len(x.Type.Results.List) != 1 {
+				rl := x.Type.Results.List
+				switch {
+				case len(rl) == 1:
+					f.result = typeStr(rl[0].Type)
+				case len(rl) == 2 && typeStr(rl[1].Type) == "error":
+					f.result = typeStr(rl[0].Type) + "?"
+				default:
 					die("%s: unsupported results", pos(x))
 				}
-				f.result = typeStr(x.Type.Results.List[0].Type)
 			}
 			funcs[key] = f
 		}
@@ -562,6 +715,7 @@ func main() {
 		}
 		sb.WriteString("  deriving Repr, DecidableEq\n\n")
 	}
+	sb.WriteString("/-- the element of a successful `SetBytes` (which fails only on a length other than 32) -/\ndef resGet (r : Res Element) : Element :=\n  match r with\n  | .ok e => e\n  | _ => " + zero("Element") + "\n\n")
 	z := zero("Element")
 	if len(dBytes) != 32 {
 		die("d is not given by 32 bytes")
@@ -580,6 +734,11 @@ func main() {
 				sig += fmt.Sprintf(" (%s : Nat)", p[0])
 				continue
 			}
+			if p[1] == "bytes" {
+				t.types[p[0]] = "bytes"
+				sig += fmt.Sprintf(" (%s : List Nat)", p[0])
+				continue
+			}
 			if !strings.HasPrefix(p[1], "*") {
 				die("%s: parameter %s is not a pointer", w, p[0])
 			}
@@ -588,9 +747,14 @@ func main() {
 			sig += fmt.Sprintf(" (%s : %s)", p[0], strings.TrimPrefix(p[1], "*"))
 		}
 		rt := strings.TrimPrefix(f.recv[1], "*")
-		if f.result == "int" {
+		switch {
+		case f.result == "int":
 			rt = "Nat"
-		} else if f.result != f.recv[1] {
+		case f.result == "bytes":
+			rt = "List Nat"
+		case f.result == f.recv[1]+"?":
+			rt = "Option " + rt
+		case f.result != f.recv[1]:
 			die("%s: unexpected result type %s", w, f.result)
 		}
 		t.body()
@@ -599,6 +763,14 @@ func main() {
 	}
 	sb.WriteString("end PatVerif.Generated.EdPoints\n")
 	fmt.Print(sb.String())
+}
+
+func stmtText(n ast.Node) string {
+	var b strings.Builder
+	if err := printer.Fprint(&b, fset, n); err != nil {
+		return "?"
+	}
+	return strings.Join(strings.Fields(strings.ReplaceAll(b.String(), ", ", ",")), " ")
 }
 
 func nodeName(e ast.Expr) string {
